@@ -299,6 +299,8 @@ def check_arguments(arg, parser):
             " relative to the root height parameter: a clock model (--clock) and"
             " --heights ratio are required"
         )
+    if arg.model == "MG94" and arg.genetic_code is None:
+        parser.error("the MG94 codon model requires the genetic_code argument")
     if arg.birth_death == "bdsk" and arg.grid is None:
         parser.error("bdsk birth-death model requires the grid argument")
     if arg.coalescent in COALESCENT_PIECEWISE:
